@@ -68,9 +68,9 @@ theorem parent_stays_list (c p : OAttr) (h : p.isList = true) :
 
 /-! ### extension -/
 
-theorem occurs_name_mem {p : Particle} (hd : (names p).Nodup) {ss : List Site}
-    (h : occurs (sites p) = some ss) {s : Site} (hs : s ∈ ss) : s.name ∈ names p := by
-  obtain ⟨s', hs', hname, _, _⟩ := mem_occurs_sites hd h hs
+theorem occurs_name_mem {p : Particle} (hd : (names p).Nodup) {s : Site}
+    (hs : s ∈ occurs (sites p)) : s.name ∈ names p := by
+  obtain ⟨s', hs', hname, _, _⟩ := mem_occurs_sites hd hs
   rw [hname, ← sitesAux_names p [] 1]
   exact List.mem_map.2 ⟨s', hs', rfl⟩
 
@@ -87,36 +87,35 @@ theorem matches_pair {pa pb : Particle} {w : List Str} (hw : Matches (.seq 1 1 [
 
 theorem extension_nonlist_core (pa pb : Particle) (hd : (names pa ++ names pb).Nodup)
     (w : List Str) (hw : Matches (.seq 1 1 [pa, pb]) w)
-    (sa sb : List Site) (ha : occurs (sites pa) = some sa) (hb : occurs (sites pb) = some sb)
-    (s : Site) (hs : s ∈ sa ++ sb) (hl : s.isList = false) : w.count s.name ≤ 1 := by
+    (s : Site) (hs : s ∈ occurs (sites pa) ++ occurs (sites pb)) (hl : s.isList = false) :
+    w.count s.name ≤ 1 := by
   obtain ⟨a, b, hma, hmb, rfl⟩ := matches_pair hw
   have hda := nodup_append_left hd
   have hdb := nodup_append_right hd
   rw [List.count_append]
   rcases List.mem_append.1 hs with hs | hs
-  · have hmem := occurs_name_mem hda ha hs
+  · have hmem := occurs_name_mem hda hs
     rw [count_zero pb s.name (nodup_append_notMem_right hd hmem) b hmb, Nat.add_zero]
-    exact nonlist_sound_core pa hda a hma sa ha s hs hl
-  · have hmem := occurs_name_mem hdb hb hs
+    exact nonlist_sound_core pa hda a hma s hs hl
+  · have hmem := occurs_name_mem hdb hs
     rw [count_zero pa s.name (nodup_append_notMem_left hd hmem) a hma, Nat.zero_add]
-    exact nonlist_sound_core pb hdb b hmb sb hb s hs hl
+    exact nonlist_sound_core pb hdb b hmb s hs hl
 
 theorem extension_required_core (pa pb : Particle) (hd : (names pa ++ names pb).Nodup)
     (hwa : wf pa = true) (hwb : wf pb = true)
     (w : List Str) (hw : Matches (.seq 1 1 [pa, pb]) w)
-    (sa sb : List Site) (ha : occurs (sites pa) = some sa) (hb : occurs (sites pb) = some sb)
-    (s : Site) (hs : s ∈ sa ++ sb) (hr : 1 ≤ s.min) (hl : s.isList = false) :
-    w.count s.name = 1 := by
+    (s : Site) (hs : s ∈ occurs (sites pa) ++ occurs (sites pb)) (hr : 1 ≤ s.min)
+    (hl : s.isList = false) : w.count s.name = 1 := by
   obtain ⟨a, b, hma, hmb, rfl⟩ := matches_pair hw
   have hda := nodup_append_left hd
   have hdb := nodup_append_right hd
   rw [List.count_append]
   rcases List.mem_append.1 hs with hs | hs
-  · have hmem := occurs_name_mem hda ha hs
+  · have hmem := occurs_name_mem hda hs
     rw [count_zero pb s.name (nodup_append_notMem_right hd hmem) b hmb, Nat.add_zero]
-    exact required_sound_core pa hda hwa a hma sa ha s hs hr hl
-  · have hmem := occurs_name_mem hdb hb hs
+    exact required_sound_core pa hda hwa a hma s hs hr hl
+  · have hmem := occurs_name_mem hdb hs
     rw [count_zero pa s.name (nodup_append_notMem_left hd hmem) a hma, Nat.zero_add]
-    exact required_sound_core pb hdb hwb b hmb sb hb s hs hr hl
+    exact required_sound_core pb hdb hwb b hmb s hs hr hl
 
 end Xs.Gen
